@@ -4,19 +4,17 @@
 -/
 import Masscanned.Proofs.C14.Parse
 namespace Masscanned.C14
-open Masscanned
+open Masscanned Masscanned.DnsFix
 
-theorem dnsReadQ_echo (body : Bytes) (hb : ∀ b ∈ body, b ≠ 0) (rest : Bytes) :
-    dnsReadQ [] (body ++ ([0] ++ ([0, 1, 0, 1] ++ rest))) =
-      some ({ name := body ++ [0], qtype := 1, qclass := 1 }, rest) := by
-  rw [List.singleton_append, dnsReadQ_body body hb]
+theorem dnsReadQ_echo (n : Bytes) (hn : IsRaw n) (rest : Bytes) :
+    dnsReadQ [] (n ++ ([0, 1, 0, 1] ++ rest)) = some ({ name := n, qtype := 1, qclass := 1 }, rest) := by
+  rw [dnsReadQ_raw hn]
   simp [slice, rdBE]
 
-theorem dnsSkipRR_answer (body : Bytes) (hb : ∀ b ∈ body, b ≠ 0) (rd : Bytes) (hrd : rd.length < 65536)
-    (rest : Bytes) :
-    dnsSkipRR (body ++ ([0] ++ ([0, 1, 0, 1] ++ (u32be 43200 ++ (u16be rd.length ++ (rd ++ rest)))))) = some rest := by
+theorem dnsSkipRR_answer (n : Bytes) (hn : IsRaw n) (rd : Bytes) (hrd : rd.length < 65536) (rest : Bytes) :
+    dnsSkipRR (n ++ ([0, 1, 0, 1] ++ (u32be 43200 ++ (u16be rd.length ++ (rd ++ rest))))) = some rest := by
   have h32 : u32be 43200 = [0, 0, 168, 192] := by decide
-  rw [List.singleton_append, dnsSkipRR_body body hb, h32]
+  rw [dnsSkipRR_raw hn, h32]
   have hlen := u16be_be16 rd.length hrd (rd ++ rest)
   have he : [0, 1, 0, 1] ++ ([0, 0, 168, 192] ++ (u16be rd.length ++ (rd ++ rest))) =
       [0, 1, 0, 1, 0, 0, 168, 192] ++ (u16be rd.length ++ (rd ++ rest)) := by simp
@@ -27,36 +25,34 @@ theorem dnsSkipRR_answer (body : Bytes) (hb : ∀ b ∈ body, b ≠ 0) (rd : Byt
   simp [u16be]
 
 theorem dnsReadQs_echo : ∀ (qs : List DnsQ),
-    (∀ q ∈ qs, (∃ body, q.name = body ++ [0] ∧ ∀ b ∈ body, b ≠ 0) ∧ q.qtype = 1 ∧ q.qclass = 1) →
+    (∀ q ∈ qs, IsRaw q.name ∧ q.qtype = 1 ∧ q.qclass = 1) →
     ∀ rest, dnsReadQs qs.length ((qs.map (fun q => q.name ++ [0, 1, 0, 1])).flatten ++ rest) = some (qs, rest) := by
   intro qs
   induction qs with
   | nil => intro _ rest; rfl
   | cons q t ih =>
     intro h rest
-    obtain ⟨⟨body, hn, hb⟩, ht, hc⟩ := h q (by simp)
+    obtain ⟨hn, ht, hc⟩ := h q (by simp)
     simp only [List.length_cons, List.map_cons, List.flatten_cons, List.append_assoc, dnsReadQs]
-    rw [hn]
-    simp only [List.append_assoc]
-    rw [dnsReadQ_echo body hb]
+    rw [dnsReadQ_echo q.name hn]
     simp only
     rw [ih (fun x hx => h x (by simp [hx]))]
     cases q
     simp_all
 
 theorem dnsSkipRRs_answers (ci : ClientInfo) (hrd : (rdataOf ci).length < 65536) : ∀ (qs : List DnsQ),
-    (∀ q ∈ qs, ∃ body, q.name = body ++ [0] ∧ ∀ b ∈ body, b ≠ 0) →
+    (∀ q ∈ qs, IsRaw q.name) →
     ∀ rest, dnsSkipRRs qs.length ((qs.map (dnsAnswer ci.ipDst)).flatten ++ rest) = some rest := by
   intro qs
   induction qs with
   | nil => intro _ rest; rfl
   | cons q t ih =>
     intro h rest
-    obtain ⟨body, hn, hb⟩ := h q (by simp)
+    have hn := h q (by simp)
     simp only [List.length_cons, List.map_cons, List.flatten_cons, List.append_assoc, dnsSkipRRs]
-    rw [dnsAnswer_eq, hn]
+    rw [dnsAnswer_eq]
     simp only [List.append_assoc]
-    rw [dnsSkipRR_answer body hb _ hrd]
+    rw [dnsSkipRR_answer q.name hn _ hrd]
     simp only
     exact ih (fun x hx => h x (by simp [hx])) rest
 
